@@ -3,6 +3,7 @@ package main
 import (
 	"flag"
 	"fmt"
+	"time"
 
 	"github.com/orbs-network/lean-helix-go/services/interfaces"
 	L "github.com/orbs-network/lean-helix-go/services/logger"
@@ -119,6 +120,9 @@ func cmdFilter(args []string) int {
 	fs.Parse(args)
 	rnd := newRand(*seed)
 	out := newNdjson(*outPath)
+	out.watchdog(30*time.Second, func() obj {
+		return obj{"op": "hang", "h": 0, "inst": "me", "self": false, "pat": "none", "out": [][]int{}, "cur": 0, "panic": false}
+	})
 	defer out.close()
 
 	if *replay != "" {
